@@ -414,12 +414,29 @@ fn resolve_fk_target<'a>(
     ref_columns: &[String],
     schema: &'a [TableDef],
 ) -> (&'a str, Vec<String>) {
+    resolve_fk_chain(ref_table, ref_columns, schema, &mut Vec::new())
+}
+
+/// `visited` holds the (table, column) nodes already followed: a cycle of single-column
+/// FKs (a.x -> b.y, b.y -> a.x) ends the walk at the node where it closes.
+fn resolve_fk_chain<'a>(
+    ref_table: &'a str,
+    ref_columns: &[String],
+    schema: &'a [TableDef],
+    visited: &mut Vec<(&'a str, String)>,
+) -> (&'a str, Vec<String>) {
     // If no schema context or ref_columns is not a single column, return as-is
     if schema.is_empty() || ref_columns.len() != 1 {
         return (ref_table, ref_columns.to_vec());
     }
 
     let ref_col = &ref_columns[0];
+
+    // Already followed this node: the chain is a cycle, stop here
+    if visited.iter().any(|(t, c)| *t == ref_table && c == ref_col) {
+        return (ref_table, ref_columns.to_vec());
+    }
+    visited.push((ref_table, ref_col.clone()));
 
     // Find the referenced table in schema
     let Some(target_table) = schema.iter().find(|t| t.name == ref_table) else {
@@ -431,7 +448,7 @@ fn resolve_fk_target<'a>(
         let fk_match =
             as_fk(constraint).filter(|(cols, _, _)| cols.len() == 1 && cols[0] == *ref_col);
         if let Some((_, next_table, next_cols)) = fk_match {
-            return resolve_fk_target(next_table, next_cols, schema);
+            return resolve_fk_chain(next_table, next_cols, schema, visited);
         }
     }
 
